@@ -52,6 +52,7 @@ package gen
 //@   requires arg0 != nil
 //@   requires fnid(self) == fnidOf("GEN.begin") ==> external(arg0.w)
 //@   free-requires live(par1)
+//@   free-requires isPAR1(par1)
 //@   modifies arg0, wfault, snk
 //@   ensures arg0.w == old(arg0.w)
 //@   ensures fnid(self) != fnidOf("GEN.begin") ==> wfault == old(wfault)
